@@ -32,24 +32,45 @@ func verifC11Sentinel(err error) string {
 	return ""
 }
 
-func verifC11Ops(s sqlx.Session) verifsql.Ops {
+func verifC11Ops(ctx context.Context, bound bool, s sqlx.Session) verifsql.Ops {
+	if !bound {
+		return verifsql.Ops{
+			Exec: func(q string) error {
+				_, err := s.Exec(q)
+				return err
+			},
+			PrepExec: func(q string) error {
+				st, err := s.Prepare(q)
+				if err != nil {
+					return err
+				}
+				defer st.Close()
+				_, err = st.Exec()
+				return err
+			},
+			Query: func(q string) error {
+				var x int64
+				return s.QueryRow(&x, q)
+			},
+		}
+	}
 	return verifsql.Ops{
 		Exec: func(q string) error {
-			_, err := s.Exec(q)
+			_, err := s.ExecCtx(ctx, q)
 			return err
 		},
 		PrepExec: func(q string) error {
-			st, err := s.Prepare(q)
+			st, err := s.PrepareCtx(ctx, q)
 			if err != nil {
-				return fmt.Errorf("verif: prepare failed: %v", err)
+				return err
 			}
 			defer st.Close()
-			_, err = st.Exec()
+			_, err = st.ExecCtx(ctx)
 			return err
 		},
 		Query: func(q string) error {
 			var x int64
-			return s.QueryRow(&x, q)
+			return s.QueryRowCtx(ctx, &x, q)
 		},
 	}
 }
@@ -84,13 +105,19 @@ func TestVerifDriverC11(t *testing.T) {
 		}
 
 		var obs verifsql.BodyObs
-		body := func(s sqlx.Session) error { return verifsql.RunBody(c.TxCase, rec, verifC11Ops(s), &obs) }
+		ctx, after, done := verifsql.MakeCtx(c.TxCase)
+		defer done()
+		body := func(bctx context.Context, s sqlx.Session) error {
+			ops := verifC11Ops(bctx, c.Bound, s)
+			ops.After = after
+			return verifsql.RunBody(c.TxCase, rec, ops, &obs)
+		}
 		var err error
 		escaped, pval := verifdrv.Catch(func() {
 			if c.API == "cachedctx" {
-				err = cc.TransactCtx(context.Background(), func(_ context.Context, s sqlx.Session) error { return body(s) })
+				err = cc.TransactCtx(ctx, body)
 			} else {
-				err = cc.Transact(body)
+				err = cc.Transact(func(s sqlx.Session) error { return body(context.Background(), s) })
 			}
 		})
 		out := map[string]any{"err": verifsql.ErrInfo(err, verifC11Sentinel), "calls": rec.Calls, "escaped": nil,
